@@ -12,7 +12,7 @@ class C15(PropBase):
     coq_imports = "Graph.MixedGraph Graph.DSep Graph.CondInd Corr.C15"
     budgets = {"quick": 320, "thorough": 3200}
     per_file = 40
-    rule = ("random ADMGs with 2..5 nodes (quick) / 2..6 (thorough) x max_conditions in {None,0,1,2,3} x policy in {default topological, len-lex}; "
+    rule = ("random ADMGs with 2..5 nodes (quick) / 2..6 (thorough), a bottleneck-above-a-fan family (5..6 nodes; the minimum separator lies outside both Markov blankets) and sparse 5..7-node graphs x max_conditions in {None,0,1,2,3} x policy in {default topological, len-lex}; "
             "non-trivial: at least one pair is separable only by a non-empty set or not at all; distinct = distinct (graph, limit, policy)")
     explanation = ("theorems characterise the enumeration for every vertex iteration order relative to the separation test; the check compares y0's "
                    "judgement set with the model pair by pair (existence, minimum size, canonical form, true separation by the model test)")
@@ -33,6 +33,22 @@ class C15(PropBase):
         nmax = 5 if tier == "quick" else 6
         while len(cases) < n:
             g = GG.rand_admg(rng, 2, nmax)
+            r = rng.random()
+            if r < 0.2:
+                # a bottleneck upstream of a fan: src -> r -> {m1..mk} -> dst; the minimum separator {r} is outside both Markov blankets
+                k = rng.randint(2, 3)
+                ids = list(range(3 + k)); rng.shuffle(ids)
+                src, bot, dst, mids = ids[0], ids[1], ids[2], ids[3:]
+                di = [[src, bot]] + [[bot, m] for m in mids] + [[m, dst] for m in mids]
+                bi = [[a, b] for a, b in itt.combinations(mids, 2) if rng.random() < 0.3]
+                if rng.random() < 0.3:
+                    di = [[b, a] for a, b in di]
+                nodes = list(ids); rng.shuffle(nodes); rng.shuffle(di)
+                g = {"nodes": nodes, "dir": di, "bid": bi}
+            elif r < 0.35:
+                g = GG.rand_admg(rng, 5, nmax + 1)   # larger and sparse: long chains
+                g["dir"] = [e for e in g["dir"] if rng.random() < 0.6]
+                g["bid"] = [e for e in g["bid"] if rng.random() < 0.4]
             cases.append({"g": g, "mc": rng.choice([None, None, 0, 1, 1, 2, 2, 3]), "policy": rng.choice(["topo", "lenlex"])})
         return cases
 
